@@ -104,3 +104,10 @@ Theorem C16_ineq_of_equal_sides : forall l r op, NF l -> NF r -> (forall a, eval
   il (mk_ineq l r op) = nil /\ ir (mk_ineq l r op) = 0.
 Proof. exact ineq_of_equal_sides. Qed.
 Print Assumptions C16_ineq_of_equal_sides.
+
+(* what cancels leaves nothing behind: e - e, e * 0 and (e + f) - f - e are the empty expression itself,
+   not merely expressions that evaluate to 0 *)
+Theorem C16_cancellation : forall e f, NF e -> NF f ->
+  sub_expr e e = zero /\ mul e 0 = zero /\ sub_expr (sub_expr (add_expr e f) f) e = zero.
+Proof. exact (fun e f He Hf => conj (sub_self e He) (conj (mul_zero e He) (add_sub_cancel e f He Hf))). Qed.
+Print Assumptions C16_cancellation.
